@@ -2,11 +2,127 @@ import TantivyModel.Proofs.Merge
 /-!
 # C04 — Merging never changes the logical content of the index
 
-Property theorems only; helper lemmas live in `Proofs/Merge.lean`.
+Property theorems only; helper lemmas live in `Proofs/Merge.lean`, the model in
+`Model/Merge.lean` (the same definitions the driver `Driver/C04.lean` executes).
 -/
 namespace TantivyModel.C04
 open TantivyModel TantivyModel.Merge
 
--- STATEMENTS TO BE PROVED (see Proofs/Merge.lean); filled in by the proof pass.
+/-! ## the doc-id mapping -/
+
+/-- `get_doc_id_from_concatenated_data`: the new→old address table is strictly increasing in
+`(segment_ord, doc_id)` — an order embedding of the live documents (source order, then doc-id
+order, is kept) — and it lists exactly the live documents of the sources. -/
+theorem C04_docid_mapping_embedding {α} (segs : List (Segment α)) :
+    (newToOld segs).Pairwise addrLt ∧
+    (∀ s d, (s, d) ∈ newToOld segs ↔ ∃ seg, segs[s]? = some seg ∧ isAlive seg.alive d = true) ∧
+    (newToOld segs).length = (segs.map fun x => x.alive.count true).sum := by
+  refine ⟨newToOldFrom_sorted segs 0, ?_, newToOldFrom_length segs 0⟩
+  intro s d
+  simpa [newToOld] using newToOldFrom_mem segs 0 s d
+
+/-- the per-segment old→new tables filled by `write_postings_for_field` are the partial inverse
+of the new→old table: `old_to_new[s][d] = Some(n)` iff `new_to_old[n] = (s, d)`; a deleted (or
+out-of-range) document has no new id. -/
+theorem C04_old_to_new_inverse {α} (segs : List (Segment α)) :
+    (∀ s d n, getAddr (oldToNew segs) s d = some n ↔ (newToOld segs)[n]? = some (s, d)) ∧
+    (∀ s d, (∀ seg, segs[s]? = some seg → isAlive seg.alive d = false) →
+      getAddr (oldToNew segs) s d = none) :=
+  ⟨oldToNew_inverse segs, oldToNew_none segs⟩
+
+/-- remapping is monotone inside one source: two live docs of the same source keep their order
+(so a remapped posting list stays strictly increasing), and docs of an earlier source come first -/
+theorem C04_remap_monotone {α} (segs : List (Segment α)) (s d n s' d' n' : Nat)
+    (h : getAddr (oldToNew segs) s d = some n) (h' : getAddr (oldToNew segs) s' d' = some n')
+    (hlt : addrLt (s, d) (s', d')) : n < n' := by
+  have e := (oldToNew_inverse segs s d n).1 h
+  have e' := (oldToNew_inverse segs s' d' n').1 h'
+  have hs : (newToOld segs).Pairwise addrLt := newToOldFrom_sorted segs 0
+  rcases Nat.lt_trichotomy n n' with hlt' | heq | hgt
+  · exact hlt'
+  · subst heq
+    rw [e] at e'
+    cases e'
+    exact absurd hlt (addrLt_irrefl _)
+  · exfalso
+    have hn : n < (newToOld segs).length := (List.getElem?_eq_some_iff.1 e).1
+    have hn' : n' < (newToOld segs).length := (List.getElem?_eq_some_iff.1 e').1
+    have := List.pairwise_iff_getElem.1 hs n' n hn' hn hgt
+    rw [(List.getElem?_eq_some_iff.1 e).2, (List.getElem?_eq_some_iff.1 e').2] at this
+    unfold addrLt at this hlt
+    simp at this hlt
+    omega
+
+/-- three sources: one with a deleted doc, one fully deleted, one intact -/
+def exSegs : List (Segment Nat) :=
+  [ { docs := [7, 8, 9], alive := [true, false, true],
+      terms := [([97], [⟨0, 1, [0]⟩, ⟨1, 2, [1, 3]⟩]), ([98], [⟨1, 1, [0]⟩, ⟨2, 1, [5]⟩])] },
+    { docs := [1], alive := [false], terms := [([98], [⟨0, 1, [2]⟩])] },
+    { docs := [4, 5], alive := [true, true],
+      terms := [([97], [⟨1, 1, [2]⟩]), ([99], [⟨0, 3, [1, 2, 3]⟩])] } ]
+
+example : newToOld exSegs = [(0, 0), (0, 2), (2, 0), (2, 1)] := by decide
+example : getAddr (oldToNew exSegs) 0 2 = some 1 ∧ getAddr (oldToNew exSegs) 0 1 = none
+    ∧ getAddr (oldToNew exSegs) 2 1 = some 3 := by decide
+example : (dump (mergeModel exSegs)).docs = [7, 9, 4, 5] := by decide
+example : (dump (mergeModel exSegs)).terms = (mergeSpec exSegs).terms := by decide
+example : (mergedTerms exSegs).map (fun t => (t.1, t.2.1)) = [([97], 2), ([98], 1), ([99], 1)] := by
+  decide
+
+/-! ## the updater: `end_merge` -/
+
+/-- A merge that can no longer be applied is discarded without effect: if the updater that
+started it was killed by a rollback, or its sources are no longer all in one register
+(rollback, delete-all, another merge consumed one of them, a source emptied by a commit), the
+`end_merge` step leaves the state — hence published and pending contents — unchanged. -/
+theorem C04_merge_invisible_discarded (b : Bool) (st : State) (r : Running)
+    (h : r.epoch ≠ st.epoch ∨
+      (containsAll st.uncommitted r.sources = false ∧ containsAll st.committed r.sources = false)) :
+    endMergeWith b st r = st := by
+  rcases h with h | ⟨hu, hc⟩
+  · exact endMergeWith_discard_epoch b st r h
+  · exact endMergeWith_discard_missing b st r hu hc
+
+/-- two committed segments, a committed merge of both is computed, then a delete of key 1 is
+committed while the merge is still running -/
+def e1 : Entry := { segId := 1, docs := [⟨10, [1]⟩, ⟨11, [2]⟩], alive := [true, true], cursor := 0 }
+def e2 : Entry := { segId := 2, docs := [⟨12, [1]⟩], alive := [true], cursor := 0 }
+def st0 : State :=
+  { queue := [], committed := [e1, e2], uncommitted := [], committedOpstamp := 0,
+    published := [e1, e2], epoch := 0 }
+def r0 : Running := { sources := [1, 2], merged := mergeEntries [] [e1, e2] 0 3, epoch := 0 }
+def st1 : State := commit (pushDelete st0 ⟨5, 1⟩) 6
+
+example : publishedUids st1 = [11] := by decide
+/-- after a rollback (new updater generation) the finished merge is refused -/
+example : r0.epoch ≠ (rollback st1).epoch ∧ endMerge (rollback st1) r0 = rollback st1 := by decide
+/-- after delete-all the sources are in no register -/
+example : containsAll (deleteAll st1).uncommitted r0.sources = false
+    ∧ containsAll (deleteAll st1).committed r0.sources = false
+    ∧ endMerge (deleteAll st1) r0 = deleteAll st1 := by decide
+
+/-- The reconciliation branch of `end_merge` is needed: a delete committed while the merge was
+running is reflected in the published merged segment with it, and lost without it. -/
+theorem C04_reconcile_needed :
+    publishedUids (endMerge st1 r0) = [11] ∧ publishedUids (endMergeWith false st1 r0) = [10, 11, 12] := by
+  decide
+
+/-- KNOWN FINDING `C04:explicit-merge-uncommitted-first-cursor`. `merge()` gives the merged
+entry the delete cursor of its FIRST source. For an explicit `IndexWriter::merge` of
+uncommitted segments the target opstamp is the last commit's, so no source is advanced and the
+sources' cursors differ. Witness: `a` (doc 10, key 1) was written before delete(key 1), `b`
+(doc 20, key 1) after it. Merging `[b, a]` skips the delete for `a` (a deleted doc stays
+visible); merging `[a, b]` applies it to `b` as well (a live doc is lost). Without the merge
+the commit publishes exactly `[20]`. -/
+theorem C04_first_cursor_counterexample :
+    let q : List DelOp := [⟨5, 1⟩]
+    let a : Entry := { segId := 1, docs := [⟨10, [1]⟩], alive := [true], cursor := 0 }
+    let b : Entry := { segId := 2, docs := [⟨20, [1]⟩], alive := [true], cursor := 1 }
+    let st : State := { queue := q, committed := [], uncommitted := [a, b], committedOpstamp := 0,
+                        published := [], epoch := 0 }
+    publishedUids (commit st 6) = [20] ∧
+    publishedUids (commit (endMerge st ⟨[2, 1], mergeEntries q [b, a] 0 3, 0⟩) 6) = [20, 10] ∧
+    publishedUids (commit (endMerge st ⟨[1, 2], mergeEntries q [a, b] 0 3, 0⟩) 6) = [] := by
+  decide
 
 end TantivyModel.C04
